@@ -276,6 +276,11 @@ Sg(j) == IF j % 2 = 0 THEN 1 ELSE -1
 \* generic tensor: pairwise distinct entries (|re| strictly increasing), re # 0, im # 0
 GenEntry(k, s) == <<Sg(k + s) * (k + 1 + (s % 3)), Sg((k + s) \div 2) * (((2 * k + s) % 7) + 1)>>
 Gen(sh, s) == [shape |-> sh, val |-> [k \in 1..Size(sh) |-> GenEntry(k, s)]]
+\* conjugate pairs (entry 2j is the conjugate of entry 2j-1, an odd last entry is real): every entry is non-zero and
+\* complex but the imaginary parts CANCEL in any sum over the tensor - a Hermitian-looking operand
+ConjPairs(sh, s) == [shape |-> sh, val |-> [k \in 1..Size(sh) |->
+                        IF k % 2 = 0 THEN <<GenEntry(k - 1, s)[1], -GenEntry(k - 1, s)[2]>>
+                        ELSE IF k = Size(sh) THEN <<GenEntry(k, s)[1], 0>> ELSE GenEntry(k, s)]]
 RealGen(sh, s) == [shape |-> sh, val |-> [k \in 1..Size(sh) |-> Sg(k + s) * (k + (s % 4))]]
 UnitT(sh, p, c) == [shape |-> sh, val |-> [k \in 1..Size(sh) |-> IF k = p THEN c ELSE GZero]]
 UnitPos(sh) == IF Size(sh) <= UMax THEN 1..Size(sh) ELSE {1, (Size(sh) \div 2) + 1, Size(sh)}
@@ -296,7 +301,8 @@ Operands(pos, sh, m, few) ==
       [] m = "f" -> IF sh = <<>> THEN ScalarsFew ELSE {Gen(sh, s + 5 * pos) : s \in Seeds}
       [] m \in {"g", "u"} /\ sh = <<>> -> IF few THEN ScalarsFew ELSE Scalars     \* scalars: exhaustive
       [] m = "n" /\ sh = <<>> -> (IF few THEN ScalarsFew ELSE Scalars) \ {Scalar(GZero)}   \* denominators
-      [] m \in {"g", "n"} /\ sh # <<>> -> {Gen(sh, s + 5 * pos) : s \in Seeds}
+      [] m = "g" /\ sh # <<>> -> {Gen(sh, s + 5 * pos) : s \in Seeds}
+      [] m = "n" /\ sh # <<>> -> {Gen(sh, s + 5 * pos) : s \in Seeds} \cup {ConjPairs(sh, MinSeed + 5 * pos)}
       [] m = "u" /\ sh # <<>> -> Units(sh)
       [] m = "r" -> IF sh = <<>> THEN {[shape |-> <<>>, val |-> <<v>>] : v \in -2..2}
                     ELSE {RealGen(sh, s + 3 * pos) : s \in Seeds}
